@@ -25,7 +25,8 @@ C21 = {
     "embedded:ExternalReference": [{"k": "at_least_one", "of": ["description", "url", "external_id"]}],
     "observables:file": [{"k": "at_least_one", "of": ["hashes", "name"]}],
     "observables:artifact": [{"k": "mutex", "of": ["payload_bin", "url"]}, {"k": "at_least_one", "of": ["payload_bin", "url"]}, {"k": "requires", "a": "url", "b": "hashes"}],
-    "observables:network-traffic": [{"k": "at_least_one", "of": ["src_ref", "dst_ref"]}, {"k": "le", "a": "start", "b": "end"}],
+    "observables:network-traffic": [{"k": "at_least_one", "of": ["src_ref", "dst_ref"]}, {"k": "le", "a": "start", "b": "end"}, {"k": "if_true_forbids", "a": "is_active", "b": "end"}],
+    "observables:email-message": [{"k": "if_true_forbids", "a": "is_multipart", "b": "body"}, {"k": "if_false_forbids", "a": "is_multipart", "b": "body_multipart"}],
     "observables:process": [{"k": "any_property", "except": ["type", "id", "spec_version", "defanged", "extensions"]}],
     "observables:x509-certificate": [{"k": "at_least_one", "of": ["is_self_signed", "hashes", "version", "serial_number", "signature_algorithm", "issuer", "validity_not_before",
                                                                   "validity_not_after", "subject", "subject_public_key_algorithm", "subject_public_key_modulus",
@@ -37,8 +38,10 @@ C20 = {
     "objects:sighting": [{"k": "le", "a": "first_seen", "b": "last_seen"}],
     "embedded:ExternalReference": [{"k": "at_least_one", "of": ["description", "url", "external_id"]}],
     "observables:artifact": [{"k": "mutex", "of": ["payload_bin", "url"]}, {"k": "at_least_one", "of": ["payload_bin", "url"]}, {"k": "requires", "a": "url", "b": "hashes"}],
-    "observables:network-traffic": [{"k": "at_least_one", "of": ["src_ref", "dst_ref"]}],
-    "observables:file": [{"k": "at_least_one", "of": ["hashes", "name"]}, {"k": "requires", "a": "encryption_algorithm", "b": "is_encrypted"}, {"k": "requires", "a": "decryption_key", "b": "is_encrypted"}],
+    "observables:network-traffic": [{"k": "at_least_one", "of": ["src_ref", "dst_ref"]}, {"k": "if_true_forbids", "a": "is_active", "b": "end"}],
+    "observables:email-message": [{"k": "if_true_forbids", "a": "is_multipart", "b": "body"}, {"k": "if_false_forbids", "a": "is_multipart", "b": "body_multipart"}],
+    "observables:file": [{"k": "at_least_one", "of": ["hashes", "name"]}, {"k": "requires", "a": "encryption_algorithm", "b": "is_encrypted"}, {"k": "requires", "a": "decryption_key", "b": "is_encrypted"},
+                         {"k": "if_false_forbids", "a": "is_encrypted", "b": "encryption_algorithm"}, {"k": "if_false_forbids", "a": "is_encrypted", "b": "decryption_key"}],
     "observables:process": [{"k": "any_property", "except": ["type", "extensions"]}],
 }
 # properties whose value space the audit does not pin down (language tags, MIME types, CPE/SWID, patterns of other languages ...): no obligation
@@ -64,13 +67,22 @@ def audit(version):
             if name == "confidence" and p["kind"] == "integer" and "max" not in p:
                 p["min"], p["max"] = 0, 100
                 model["deltas"].append("%s.confidence: range 0..100 added (library: unbounded)" % key)
-            p["lenient"] = name in LENIENT_PROPS
+            # A3: properties the library computes when absent count as defaults (it may add them to what it emits)
+            if name == "pattern_version" and "default" not in p:
+                p["default"] = "COMPUTED"
+            # A4: STIX 2.0 timestamps of the common properties have exactly millisecond precision, also on marking definitions
+            if version == "2.0" and key == "objects:marking-definition" and name == "created":
+                p["precision"], p["constraint"] = "millisecond", "exact"
+                model["deltas"].append("2.0 marking-definition.created: millisecond/exact (library: decided per input)")
+            p["lenient"] = name in LENIENT_PROPS or (version == "2.0" and key == "objects:marking-definition" and name == "created")
             props.append(p)
         model["types"][key] = {"class": t["class"], "category": cat, "type": t.get("type") or "", "properties": props, "constraints": cons.get(key, []),
                                "id_contributing": t.get("id_contributing", [])}
     for key in cons:
         if key not in model["types"]:
             raise SystemExit("constraint for unknown type " + key)
+    if "embedded:WindowsPEOptionalHeaderType" in model["types"]:
+        model["types"]["embedded:WindowsPEOptionalHeaderType"]["constraints"].append({"k": "any_property", "except": []})
     for key, t in model["types"].items():       # every extension must carry at least one property
         if key.startswith("extensions:"):
             t["constraints"] = t["constraints"] + [{"k": "any_property", "except": ["extension_type"]}]
